@@ -233,7 +233,7 @@ std::string run_case(Session& S, const std::string& line, uint32_t serial) {
           std::string key = "6:pieces" + std::to_string((size_t)np * 20) + ":";
           size_t pos = info.find(key);
           if (pos == std::string::npos) return "BADCASE pieces";
-          info[pos + key.size() + x * 20 + 7] ^= 0x11;
+          info[pos + key.size() + x * 20 + (b.empty() ? 7 : std::stoul(b) % 20)] ^= 0x11;
         } break;
       case 'M': kind[x] = 1; break;
       case 'N': kind[x] = 2; break;
@@ -325,7 +325,7 @@ std::string run_case(Session& S, const std::string& line, uint32_t serial) {
   }
   C.dl.file_list()->set_root_dir(C.root);
   Case* cp = &C;
-  C.w()->data()->slot_initial_hash() = [cp]() { if (!cp->dl.is_hash_checked()) cp->storerr = true; };
+  C.w()->data()->slot_initial_hash() = [cp]() { if (!cp->dl.info()->is_open()) cp->storerr = true; };   // receive_storage_error closed it
 
   std::string out;
   for (auto& t : ops) {
@@ -359,6 +359,7 @@ std::string run_case(Session& S, const std::string& line, uint32_t serial) {
         break;
       case 'w': {
         C.put_back_all();
+        C.hq()->work();   // what the callback posted by HashQueue::chunk_done does
         torrent::Download d = C.dl;
         Case* c2 = &C;
         // nothing outstanding in the main thread's queue and no timer pending
@@ -366,7 +367,7 @@ std::string run_case(Session& S, const std::string& line, uint32_t serial) {
           throw std::runtime_error("free-running check did not finish");
         break;
       }
-      case 'K': S.step(); break;
+      case 'K': C.collect(true); S.step(); break;
       case 'S': C.collect(true); C.put_back_all(); C.dl.hash_stop(); break;
       case 's': C.put_back_all(); C.dl.hash_stop(); break;
       case 'X': C.collect(true); C.put_back_all(); C.dl.close(0); break;
@@ -408,7 +409,7 @@ int main() {
       if (!S) S = std::make_unique<Session>();
       std::cout << run_case(*S, line, serial++) << "\n";
     } catch (torrent::internal_error& e) {
-      std::cout << "ERR:internal " << e.what() << "\n";
+      std::cout << "ERR:internal || " << e.what() << "\n";
       std::cout.flush();
       _exit(3);   // the session is not usable after an internal_error; run_sharded restarts after this case
     } catch (std::exception& e) {
